@@ -18,6 +18,11 @@ PUNCT = set('{}[]()') | set(PREC) - {'and', 'or'}
 ABBREV = {'hue': 'H', 'saturation': 'S', 'brightness': 'B', 'kelvin': 'K'}
 
 
+def is_neg(v):
+    """negative, including the float -0.0 (written with a minus sign)"""
+    return v < 0 or (v == 0 and str(v).startswith('-'))
+
+
 class Tok(str):
     """token text + flags"""
     __slots__ = ('reg', 'pat')
@@ -47,7 +52,7 @@ class Renderer:
     # ----------------------------------------------------------- expressions
     def atom_like(self, e):
         return e[0] in ('num', 'var', 'macro', 'reg', 'call', 'choose',
-                        'paren') and not (e[0] == 'num' and e[1] < 0)
+                        'paren') and not (e[0] == 'num' and is_neg(e[1]))
 
     def expr(self, e, out, parent=None, side=None):
         """inside braces"""
@@ -63,7 +68,7 @@ class Renderer:
                     wrap = (side == 'L') == (parent in RIGHT)
             if not wrap and parent is not None and self.chance(self.redundant):
                 wrap = True
-        elif t in ('neg', 'pos') or (t == 'num' and e[1] < 0):
+        elif t in ('neg', 'pos') or (t == 'num' and is_neg(e[1])):
             # a signed operand is parenthesised wherever its grouping could be
             # read differently (left of ^, right of any operator)
             if parent == '^' or (parent is not None and side == 'R'):
@@ -90,7 +95,7 @@ class Renderer:
             self.expr(e[1], out)
             out.append(Tok(')'))
         elif t == 'num':
-            if e[1] < 0:
+            if is_neg(e[1]):
                 out.append(Tok('-'))
                 out.append(Tok(num_text(-e[1])))
             else:
@@ -116,7 +121,7 @@ class Renderer:
         is optional and a leading minus would not be recognised as one."""
         t = e[0]
         if t in ('bin', 'neg', 'pos', 'paren') or (
-                t == 'num' and e[1] < 0 and not direct):
+                t == 'num' and is_neg(e[1]) and not direct):
             out.append(Tok('{'))
             self.expr(e, out)
             out.append(Tok('}'))
@@ -127,7 +132,7 @@ class Renderer:
         elif t in ('var', 'macro'):
             # may hold a name (string): braces are for numeric values
             self.expr(e, out)
-        elif not (t == 'num' and e[1] < 0) and self.chance(self.brace_single):
+        elif not (t == 'num' and is_neg(e[1])) and self.chance(self.brace_single):
             out.append(Tok('{'))
             self.expr(e, out)
             out.append(Tok('}'))
